@@ -771,6 +771,8 @@ def _r4(ctx: Ctx, mod, infos: dict[str, FnInfo]) -> None:
     sd_st = [e for e in fi.mutations() if e.d == SD and e.op == "store"]
     sd_del = [e for e in fi.mutations() if e.d == SD and e.op == "del"]
     if len(sd_st) != 1 or len(sd_del) != 1:
+        if any(fd.rule == "R2" and fd.qualname == q for fd in ctx.findings):
+            return  # the unpaired insert/delete is already reported by R2; old/new cannot be told apart here
         raise Undecided(f"{MD}:{q}: expected one insert and one delete on {SD}")
     new, old = u(sd_st[0].key), u(sd_del[0].key)
     # data transfer
@@ -1226,12 +1228,15 @@ MUTANTS = [
        "                    pass\n", "R2"),
     _m("add-subdomains-bg-only-above-1d", "            if sd.dim > 0:\n                bg = pp.BoundaryGrid(g=sd)\n",
        "            if sd.dim > 1:\n                bg = pp.BoundaryGrid(g=sd)\n", "R2"),
+    _m("replace-keeps-old-subdomain", "                del self._subdomain_data[sd_old]\n", "                pass\n", "R2"),
+    _m("argsort-key-python-id", "                    ids_dim.append(grid.id)\n", "                    ids_dim.append(id(grid))\n", "R5"),
+    _m("add-subdomains-forgets-boundary-data", "                self._boundary_grid_data[bg] = {}\n", "                pass\n", "R2"),
     _m("add-interface-forgets-pair", "        self._interface_to_subdomains[intf] = sd_pair\n", "        pass\n", "R2"),
     # selection
     _m("remove-selects-with-and", "            if sd_pair[0] == sd or sd_pair[1] == sd:\n                interfaces_to_remove.append(intf)",
        "            if sd_pair[0] == sd and sd_pair[1] == sd:\n                interfaces_to_remove.append(intf)", "R3"),
     _m("remove-selects-primary-only", "            if sd_pair[0] == sd or sd_pair[1] == sd:\n                interfaces_to_remove.append(intf)",
-       "            if sd_pair[0] == sd:\n                interfaces_to_remove.append(intf)", "R3", control=True),
+       "            if sd_pair[0] == sd:\n                interfaces_to_remove.append(intf)", "R3"),
     _m("remove-filters-interfaces-by-dim", "        for intf in self.interfaces():\n            sd_pair = self._interface_to_subdomains[intf]",
        "        for intf in self.interfaces(dim=sd.dim):\n            sd_pair = self._interface_to_subdomains[intf]", "R3"),
     _m("subdomain-to-interfaces-secondary-only", "            if sd_pair[0] == sd or sd_pair[1] == sd:\n                interfaces.append(intf)",
@@ -1244,14 +1249,14 @@ MUTANTS = [
     _m("replace-drops-subdomain-data", "                self._subdomain_data[sd_new] = data\n",
        "                self._subdomain_data[sd_new] = {}\n", "R4"),
     _m("add-interface-stores-unsorted-pair", "            sd_pair = self.sort_subdomain_tuple(sd_pair)\n",
-       "            sd_pair = (sd_pair[0], sd_pair[1])\n", "R4", control=True),
+       "            sd_pair = (sd_pair[0], sd_pair[1])\n", "R4"),
     # sorting
     _m("interfaces-returned-unsorted", "            return [interfaces[i] for i in sort_ind]\n",
        "            return list(interfaces)\n", "R5"),
     _m("subdomains-data-misaligned", "                subdomains.append(sd)\n                data_list.append(data)\n",
        "                subdomains.append(sd)\n            data_list.append(data)\n", "R5"),
     _m("argsort-loses-id-tiebreak", "                    ids_dim.append(grid.id)\n", "                    ids_dim.append(ind)\n",
-       "R5", control=True),
+       "R5"),
     _m("argsort-ascending-dims", "np.arange(self.dim_max(), -1, -1)", "np.arange(0, self.dim_max() + 1)", "R5"),
     _m("argsort-drops-dim0", "np.arange(self.dim_max(), -1, -1)", "np.arange(self.dim_max(), 0, -1)", "R5"),
     _m("argsort-ids-descending", "np.argsort(ids_dim)\n", "np.argsort(ids_dim)[::-1]\n", "R5"),
